@@ -425,6 +425,19 @@ pub fn spaces(tier: Tier) -> Vec<Space> {
             eval_bytes(&script, &e, acc, case);
         }));
     }
+    // every opcode byte (with a complete payload when it is a push) at every position of every conditional skeleton of up
+    // to 4 (5) symbols over {IF, NOTIF, ELSE, ENDIF}: which opcodes open or close a block must not depend on the branch
+    {
+        let e = env.clone();
+        let holes = super::skeleton_holes(if tier.is_thorough() { 5 } else { 4 });
+        let nh = holes.len() as u64;
+        v.push(Space::new("opcode-in-skeleton", nh * 256, move |case, acc| {
+            let c = crate::engine::coords(case.idx, &[nh, 256]);
+            let (pre, post) = &holes[c[0] as usize];
+            let b: Vec<u8> = [pre.as_slice(), super::hole_fill(c[1] as u8).as_slice(), post.as_slice()].concat();
+            eval_bytes(&b, &e, acc, case);
+        }));
+    }
     // every push payload length 1..=N in its minimal form, followed by one opcode (interior lengths)
     {
         let e = env.clone();
